@@ -118,5 +118,7 @@ func StdWorld() *World {
 		// path elements that merely end in "vendor" are not vendor directories
 		"k.io/govendor/ctx": dep("ctx"),
 		"k.io/myvendor/api": dep("api"),
+		// a package that is really named like a version
+		"k.io/api/core/v1": dep("v1"),
 	})
 }
